@@ -53,6 +53,7 @@ Q = [0.01, 0.1, 0.3]
 PARS = {"radius": 45.0, "radius_pd": 0.1, "radius_pd_n": 5, "scale": 2.0, "background": 0.125}
 
 STATE = {}
+STOP_AFTER = 25      # violating executions after which no further schedule families are started (the verdict is settled)
 
 
 def _python_for_cc():
@@ -209,6 +210,9 @@ def _explore_tree(ctx, report, make_spec, bound, label, phase_key="p1", prefix_k
     by_pre = {}
     first_payload = None
     while frontier:
+        if len(report.fails) >= STOP_AFTER:
+            report.caps.append("%s: exploration stopped early, %d violating executions already found" % (label, len(report.fails)))
+            break
         if cap and n_exec + len(frontier) > cap:
             report.caps.append("%s: stopped at %d executions (cap %d)" % (label, n_exec, cap))
             frontier = frontier[:max(0, cap - n_exec)]
@@ -314,8 +318,11 @@ def explore(ctx):
                               b2, "kill:%s:k%d:rec%d" % (model, k, n2), phase_key="p2", prefix_key="prefix2")
         # a victim killed while a second loader runs concurrently, followed by one fresh loader
         kb = 0 if quick else 2
+        STATE["stop"] = len(report.fails) >= STOP_AFTER
         base_scheds = _enumerate_prefixes(ctx, model, 2, kb)
         specs = []
+        if len(report.fails) >= STOP_AFTER:
+            base_scheds = []
         for pre, length in base_scheds:
             for victim in (0, 1):
                 for k in range(1, length):
@@ -348,6 +355,8 @@ def _enumerate_prefixes(ctx, model, n, bound):
     """all complete schedules (as full choice lists) of n loaders up to the bound, with their lengths"""
     out = []
     frontier = [[]]
+    if STATE.get("stop"):
+        return out
     while frontier:
         specs = [{"model": model, "n1": n, "prefix1": p, "kill": None, "n2": 0} for p in frontier]
         res = pool_map(ctx, run_exec, specs, timeout=CASE_TIMEOUT)
